@@ -5,3 +5,4 @@ pub mod ide_sweep;
 pub mod history;
 pub mod cancel;
 pub mod messages;
+pub mod rename;
